@@ -224,7 +224,8 @@ def CandAt (P : Params α β) (D : Data α β) (mask : List Bool) (f : Nat) (tot
     (fL fR : List β) (wL wR : β) (s : List (Nat × α)) (c : Cand α β) : Prop :=
   ∃ (k i j : Nat) (v v' : α), s[k]? = some (i, v) ∧ s[k + 1]? = some (j, v') ∧
     mask.getD i false = true ∧ ¬ absS (v - v') < P.eps ∧ c.feat = f ∧
-    c.split = (if (v + v') / ((2 : Nat) : α) < v' then (v + v') / ((2 : Nat) : α) else v) ∧
+    c.split = (if v ≤ (v + v') / ((2 : Nat) : α) ∧ (v + v') / ((2 : Nat) : α) < v' then
+      (v + v') / ((2 : Nat) : α) else v) ∧
     (∀ cl, c.fL.getD cl 0 = fL.getD cl 0 + cwS D (moved mask (s.take (k + 1))) cl) ∧
     (∀ cl, c.fR.getD cl 0 = fR.getD cl 0 - cwS D (moved mask (s.take (k + 1))) cl) ∧
     c.wL = wL + rwS D (moved mask (s.take (k + 1))) ∧
@@ -297,7 +298,7 @@ theorem sweepGo_candAt (P : Params α β) (D : Data α β) (mask : List Bool) (f
           · rename_i hml
             rcases List.mem_cons.mp hc with hc | hc
             · subst hc
-              refine ⟨0, i, j, v, v', rfl, rfl, hm, heps, rfl, rfl, ?_, ?_, ?_, ?_, rfl,
+              refine ⟨0, i, j, v, v', rfl, rfl, hm, (not_or.mp heps).2, rfl, rfl, ?_, ?_, ?_, ?_, rfl,
                 (not_or.mp hml).1, (not_or.mp hml).2⟩
               · intro cl
                 simp only [moved, List.take_succ_cons, List.take_zero, List.map_cons, List.map_nil,
@@ -334,8 +335,10 @@ theorem sortedV_le (s : List (Nat × α)) (hs : SortedV s) (a b : Nat) (hab : a 
 /-- two consecutive sorted values that the equal-value skip lets through are strictly increasing,
 and the threshold (midpoint, or the lower value) separates them -/
 theorem threshold_between (eps v v' : α) (heps : 0 < eps) (hle : v ≤ v') (hskip : ¬ absS (v - v') < eps) :
-    v ≤ (if (v + v') / ((2 : Nat) : α) < v' then (v + v') / ((2 : Nat) : α) else v) ∧
-    (if (v + v') / ((2 : Nat) : α) < v' then (v + v') / ((2 : Nat) : α) else v) < v' := by
+    v ≤ (if v ≤ (v + v') / ((2 : Nat) : α) ∧ (v + v') / ((2 : Nat) : α) < v' then
+      (v + v') / ((2 : Nat) : α) else v) ∧
+    (if v ≤ (v + v') / ((2 : Nat) : α) ∧ (v + v') / ((2 : Nat) : α) < v' then
+      (v + v') / ((2 : Nat) : α) else v) < v' := by
   have hne : v ≠ v' := by
     intro h
     apply hskip
@@ -346,7 +349,7 @@ theorem threshold_between (eps v v' : α) (heps : 0 < eps) (hle : v ≤ v') (hsk
   rw [h2]
   split
   · rename_i h
-    exact ⟨by linarith, h⟩
+    exact ⟨h.1, h.2⟩
   · exact ⟨le_refl _, hlt⟩
 
 theorem mem_rowsOf (mask : List Bool) (r : Nat) :
@@ -955,7 +958,12 @@ theorem fitNode_forallSplitsI (P : Params α β) (D : Data α β) (ord : List Na
     | leaf pred hm => trivial
     | node pred b l r hm hguard hok hb hdec hl hr hle hre =>
       exact ⟨hQ mask depth b hI hguard hb hdec hle hre, ih _ _ _ (hIl _ _ _ hI) hl, ih _ _ _ (hIr _ _ _ hI) hr⟩
-    | half pred b il c hguard hc hempty hb => trivial
+    | half pred b il c hguard hc hempty hb =>
+      simp only [ForallSplits]
+      refine ih _ _ _ ?_ hc
+      cases il
+      · exact hIr _ _ _ hI
+      · exact hIl _ _ _ hI
 
 theorem prune_noHalf : ∀ (t : Tree α), NoHalf t → NoHalf (prune t).1 := by
   intro t
